@@ -212,7 +212,7 @@ def run_history(world, events, on_job=None, on_event=None, fault_for=None):
             before = world.dump()
             fault = fault_for(world, ev, before) if fault_for else None
             rec = world.run_job(ev, fault=fault)
-            rec['fault'] = fault
+            rec['fault'] = fault or rec.get('fault_used')
             after = world.dump()
             log.append({'ev': ev, 'status': rec['status']})
             if on_job:
